@@ -793,6 +793,43 @@ func runC07(c *Ctx) {
 		})
 	}
 
+	// ---------------------------------------------------------------- R10
+	c.rule("R10", "lock order is acyclic (no potential deadlock between transport, connection and queue locks); no new blocking operation under a mutex", 2)
+	{
+		tscope := p.funcsIn(relTransport)
+		lo := newLockOrder(p, tscope, lf)
+		lo.build()
+		cycles := lo.cycles()
+		if len(cycles) == 0 {
+			c.ok("lock-order", 0, "acyclic: %s", strings.Join(lo.describe(), "; "))
+		}
+		for _, cyc := range cycles {
+			c.fail("lock-order", cyc[0].Pos, "lock-order cycle: %s — two goroutines taking these locks in opposite order (or one re-taking a held mutex) block forever, and with them Close and every later call", fmtCycle(p, cyc))
+		}
+		if len(lo.Edges) == 0 {
+			c.anchorMissing("nested lock acquisitions in the transport package")
+		}
+		// blocking operations under a lock: frozen table (role: function + kind); anything else is new
+		allowed := map[string]string{
+			"(*" + T + "lazyDnsConn).ReserveNewQuery|WaitGroup.Wait": "by design: queued calls re-reserve first; bounded because Wait is only reached after a successful dial and every queued call signals Done exactly once (R9)",
+		}
+		seen := map[string]bool{}
+		for _, b := range blockingUnderLock(tscope, lf) {
+			k := funcName(b.Fn) + "|" + b.What
+			seen[k] = true
+			if why, ok := allowed[k]; ok {
+				c.ok("blocking-under-lock@"+funcName(b.Fn), instrPos(b.In), "%s under %s: %s", b.What, b.Held, why)
+			} else {
+				c.fail("blocking-under-lock@"+funcName(b.Fn), instrPos(b.In), "%s while holding %s: every caller needing that mutex (including Close) hangs as long as this blocks", b.What, b.Held)
+			}
+		}
+		for k := range allowed {
+			if !seen[k] {
+				c.ok("blocking-under-lock:"+k, 0, "listed site no longer blocks under a lock")
+			}
+		}
+	}
+
 	// ---------------------------------------------------------------- R9
 	c.rule("R9", "early-reservation wait-group accounting (a missing Done blocks every later call and Close forever)", 2)
 	checkEarlyWgAccounting(c)
